@@ -1,3 +1,6 @@
 //! Shared generators (proptest strategies).
+pub mod fmt_config;
+pub mod fmt_input;
+pub mod fmt_prog;
 pub mod soup;
 pub mod util;
